@@ -219,7 +219,12 @@ def main(run):
         ids = {id(x): i for i, x in enumerate(pop)}
         return [ids.get(id(x), 999) for x in out[1]] if out[0] == "ok" and isinstance(out[1], list) else out[1]
 
+    searching = [False]
+
     def add(term, case, nontrivial=True):
+        if searching[0]:            # counterexample search: oracle only
+            run.note_case(case, nontrivial)
+            return
         terms.append(term)
         cases.append(case)
         run.note_case(case, nontrivial, sample=case if len(cases) % 211 == 1 else None)
@@ -637,129 +642,142 @@ def main(run):
     do_sus([1], [[Fr(1)], [Fr(2)], [Fr(3)]], [0, 0, 0], 0)
     do_sus([1], [[Fr(1)], [Fr(1)]], [0, 0], 2, inscope=False, uscript=[Fr(0)])     # start exactly 0.0: hypothesis 0 < u
 
-    # ---- random ----
-    N = run.scale(220, 4000)
-    for _ in range(N):
-        w, rows, sizes = gen_pop(nmin=rng.choice([0, 1, 1, 1, 1, 1, 1, 1]))
-        n = len(rows)
-        k = rng.choice([0, 1, 2, n, n + 1, rng.randint(0, n + 3)])
-        do_random(w, rows, sizes, k, inscope=n > 0)
-        do_best(w, rows, sizes, k)
-        do_best(w, rows, sizes, rng.randint(0, n + 2), worst=True)
-        ts = rng.choice([1, 1, 2, 2, 3, 4])
-        do_tourn(w, rows, sizes, k, ts, inscope=n > 0)
-        if rng.random() < 0.1:
-            do_tourn(w, rows, sizes, k, 0, inscope=False)
-        fs = rng.choice([1, 2, 2, 3])
-        ps = rng.choice([Fr(1), Fr(5, 4), Fr(3, 2), Fr(7, 4), Fr(2)])
-        do_double(w, rows, sizes, min(k, 4), fs, ps, rng.random() < 0.5, inscope=n > 0, ubits=rng.choice([2, 3, 4]))
-        if rng.random() < 0.08:
-            do_double(w, rows, sizes, 1, rng.choice([0, 1]), rng.choice([Fr(1, 2), Fr(9, 4), Fr(1)]), rng.random() < 0.5, inscope=False)
-        kind = rng.choice(["plain", "eps", "eps", "auto"])
-        eps = rng.choice([Fr(0), Fr(1, 4), Fr(1, 2), Fr(1), Fr(2)]) if kind == "eps" else None
-        do_lex(kind, w, rows, sizes, min(k, 5), eps=eps, inscope=n > 0)
-
-    # roulette
-    for _ in range(run.scale(200, 3000)):
-        mode = rng.random()
-        if mode < 0.45:
-            # full wheel: integer fitnesses with a power-of-two total S; spins (m + delta)/S, m = 0..S-1, shuffled
-            S = rng.choice([4, 8, 8, 16, 32])
-            n = rng.randint(1, min(8, S))
-            cuts = sorted(rng.sample(range(1, S), n - 1))
-            f = [b - a for a, b in zip([0] + cuts, cuts + [S])]
-            m = rng.choice([1, 1, 2, 3])
-            w = [rng.choice([1, 2, Fr(1, 2)])] + [rng.choice([1, -1]) for _ in range(m - 1)]
-            rows = [[Fr(x)] + [Fr(rng.randint(0, 2)) for _ in range(m - 1)] for x in f]
-            delta = rng.choice([Fr(0), Fr(0), Fr(1, 2), Fr(1, 4), Fr(7, 8)])
-            us = [(Fr(mm) + delta) / S for mm in range(S)]
-            rng.shuffle(us)
-            do_roulette(w, rows, [0] * n, S, wheel=S, uscript=us)
-        elif mode < 0.9:
-            w, rows, sizes = gen_pop(positive_first=True)
+    def random_part(n_all, n_roul, n_sus, n_lex, n_dcd):
+        # ---- random ----
+        for _ in range(n_all):
+            w, rows, sizes = gen_pop(nmin=rng.choice([0, 1, 1, 1, 1, 1, 1, 1]))
             n = len(rows)
-            S = sum(r[0] for r in rows)
-            k = rng.choice([0, 1, 2, 3, n, n + 2])
-            us = None
-            if rng.random() < 0.5:     # exact interval boundaries (and quarter steps around them) when representable
-                cand = [Fr(j, 4) / S for j in range(0, int(S * 4))]
-                cand = [u for u in cand if u.denominator <= 1024 and u.denominator & (u.denominator - 1) == 0]
-                if cand:
-                    us = [rng.choice(cand) for _ in range(k)]
-            do_roulette(w, rows, sizes, k, uscript=us, ubits=rng.choice([1, 2, 3, 5]))
-        else:
-            w, rows, sizes = gen_pop(nmin=0)                      # out of scope: zero / negative / minimised fitnesses
-            do_roulette(w, rows, sizes, rng.randint(0, 4), inscope=False, ubits=rng.choice([1, 3]))
+            k = rng.choice([0, 1, 2, n, n + 1, rng.randint(0, n + 3)])
+            do_random(w, rows, sizes, k, inscope=n > 0)
+            do_best(w, rows, sizes, k)
+            do_best(w, rows, sizes, rng.randint(0, n + 2), worst=True)
+            ts = rng.choice([1, 1, 2, 2, 3, 4])
+            do_tourn(w, rows, sizes, k, ts, inscope=n > 0)
+            if rng.random() < 0.1:
+                do_tourn(w, rows, sizes, k, 0, inscope=False)
+            fs = rng.choice([1, 2, 2, 3])
+            ps = rng.choice([Fr(1), Fr(5, 4), Fr(3, 2), Fr(7, 4), Fr(2)])
+            do_double(w, rows, sizes, min(k, 4), fs, ps, rng.random() < 0.5, inscope=n > 0, ubits=rng.choice([2, 3, 4]))
+            if rng.random() < 0.08:
+                do_double(w, rows, sizes, 1, rng.choice([0, 1]), rng.choice([Fr(1, 2), Fr(9, 4), Fr(1)]), rng.random() < 0.5, inscope=False)
+            kind = rng.choice(["plain", "eps", "eps", "auto"])
+            eps = rng.choice([Fr(0), Fr(1, 4), Fr(1, 2), Fr(1), Fr(2)]) if kind == "eps" else None
+            do_lex(kind, w, rows, sizes, min(k, 5), eps=eps, inscope=n > 0)
 
-    # SUS
-    for _ in range(run.scale(260, 4000)):
-        mode = rng.random()
-        if mode < 0.85:
-            w, rows, sizes = gen_pop(positive_first=True)
-            n = len(rows)
-            k = rng.choice([0, 1, 2, 3, 4, 5, 6, 8, n, 2 * n])
-            if k > 0:
-                # make the spacing S/k exactly representable: S a multiple of the odd part of k (times a power of two)
-                odd = k
-                while odd % 2 == 0:
-                    odd //= 2
+        # roulette
+        for _ in range(n_roul):
+            mode = rng.random()
+            if mode < 0.45:
+                # full wheel: integer fitnesses with a power-of-two total S; spins (m + delta)/S, m = 0..S-1, shuffled
+                S = rng.choice([4, 8, 8, 16, 32])
+                n = rng.randint(1, min(8, S))
+                cuts = sorted(rng.sample(range(1, S), n - 1))
+                f = [b - a for a, b in zip([0] + cuts, cuts + [S])]
+                m = rng.choice([1, 1, 2, 3])
+                w = [rng.choice([1, 2, Fr(1, 2)])] + [rng.choice([1, -1]) for _ in range(m - 1)]
+                rows = [[Fr(x)] + [Fr(rng.randint(0, 2)) for _ in range(m - 1)] for x in f]
+                delta = rng.choice([Fr(0), Fr(0), Fr(1, 2), Fr(1, 4), Fr(7, 8)])
+                us = [(Fr(mm) + delta) / S for mm in range(S)]
+                rng.shuffle(us)
+                do_roulette(w, rows, [0] * n, S, wheel=S, uscript=us)
+            elif mode < 0.9:
+                w, rows, sizes = gen_pop(positive_first=True)
+                n = len(rows)
                 S = sum(r[0] for r in rows)
-                den = S.denominator
-                r_ = (S * den) % odd
-                if r_ != 0:
-                    rows[rng.randrange(n)][0] += Fr(odd - r_, den)
-            ub = rng.choice([1, 2, 3, 4])
-            us = None
-            if k > 0 and rng.random() < 0.4:
-                # start draws that put a pointer exactly on a boundary between two individuals, or just around it
-                S = sum(r[0] for r in rows)
-                d = S / k
-                cum = rng.choice(sorted(set(sum(sorted([r[0] for r in rows], reverse=True)[:j]) for j in range(1, n + 1))))
-                frac = (cum / d) % 1
-                cand = [u for u in (frac, frac + Fr(1, 16), frac - Fr(1, 16)) if 0 < u < 1 and u.denominator <= 64 and
-                        u.denominator & (u.denominator - 1) == 0]
-                if cand:
-                    us = [rng.choice(cand)]
-            do_sus(w, rows, sizes, k, uscript=us, ubits=ub, allow_zero=False)
-        elif mode < 0.93:
-            w, rows, sizes = gen_pop(positive_first=True, nmax=4)
-            do_sus(w, rows, sizes, rng.choice([1, 2, 4]), inscope=False, uscript=[Fr(0)])
-        else:
-            w, rows, sizes = gen_pop(nmin=0, nmax=4)              # out of scope (may raise IndexError)
-            do_sus(w, rows, sizes, rng.choice([0, 1, 2, 4]), inscope=False, ubits=2)
+                k = rng.choice([0, 1, 2, 3, n, n + 2])
+                us = None
+                if rng.random() < 0.5:     # exact interval boundaries (and quarter steps around them) when representable
+                    cand = [Fr(j, 4) / S for j in range(0, int(S * 4))]
+                    cand = [u for u in cand if u.denominator <= 1024 and u.denominator & (u.denominator - 1) == 0]
+                    if cand:
+                        us = [rng.choice(cand) for _ in range(k)]
+                do_roulette(w, rows, sizes, k, uscript=us, ubits=rng.choice([1, 2, 3, 5]))
+            else:
+                w, rows, sizes = gen_pop(nmin=0)                      # out of scope: zero / negative / minimised fitnesses
+                do_roulette(w, rows, sizes, rng.randint(0, 4), inscope=False, ubits=rng.choice([1, 3]))
 
-    # lexicase: more objectives, more ties
-    for _ in range(run.scale(150, 2500)):
-        n = rng.randint(1, 8)
-        m = rng.randint(1, 4)
-        w = [rng.choice([1, -1]) * rng.choice([1, 1, 2, Fr(1, 2)]) for _ in range(m)]
-        den = rng.choice([1, 2, 4])
-        hi = rng.choice([1, 2, 4])
-        rows = [[Fr(rng.randint(0, hi), den) for _ in range(m)] for _ in range(n)]
-        k = rng.randint(0, 4)
-        do_lex("plain", w, rows, [0] * n, k)
-        do_lex("eps", w, rows, [0] * n, k, eps=rng.choice([Fr(0), Fr(1, 4), Fr(1, 2), Fr(1), Fr(3)]))
-        do_lex("auto", w, rows, [0] * n, k)
-    do_lex("plain", [1], [], [], 1, inscope=False)
-    do_lex("plain", [1], [], [], 0, inscope=False)
+        # SUS
+        for _ in range(n_sus):
+            mode = rng.random()
+            if mode < 0.85:
+                w, rows, sizes = gen_pop(positive_first=True)
+                n = len(rows)
+                k = rng.choice([0, 1, 2, 3, 4, 5, 6, 8, n, 2 * n])
+                if k > 0:
+                    # make the spacing S/k exactly representable: S a multiple of the odd part of k (times a power of two)
+                    odd = k
+                    while odd % 2 == 0:
+                        odd //= 2
+                    S = sum(r[0] for r in rows)
+                    den = S.denominator
+                    r_ = (S * den) % odd
+                    if r_ != 0:
+                        rows[rng.randrange(n)][0] += Fr(odd - r_, den)
+                ub = rng.choice([1, 2, 3, 4])
+                us = None
+                if k > 0 and rng.random() < 0.4:
+                    # start draws that put a pointer exactly on a boundary between two individuals, or just around it
+                    S = sum(r[0] for r in rows)
+                    d = S / k
+                    cum = rng.choice(sorted(set(sum(sorted([r[0] for r in rows], reverse=True)[:j]) for j in range(1, n + 1))))
+                    frac = (cum / d) % 1
+                    cand = [u for u in (frac, frac + Fr(1, 16), frac - Fr(1, 16)) if 0 < u < 1 and u.denominator <= 64 and
+                            u.denominator & (u.denominator - 1) == 0]
+                    if cand:
+                        us = [rng.choice(cand)]
+                do_sus(w, rows, sizes, k, uscript=us, ubits=ub, allow_zero=False)
+            elif mode < 0.93:
+                w, rows, sizes = gen_pop(positive_first=True, nmax=4)
+                do_sus(w, rows, sizes, rng.choice([1, 2, 4]), inscope=False, uscript=[Fr(0)])
+            else:
+                w, rows, sizes = gen_pop(nmin=0, nmax=4)              # out of scope (may raise IndexError)
+                do_sus(w, rows, sizes, rng.choice([0, 1, 2, 4]), inscope=False, ubits=2)
 
-    # DCD
-    for _ in range(run.scale(200, 3000)):
-        n = rng.choice([0, 1, 2, 3, 4, 4, 5, 6, 7, 8, 8, 12])
-        m = rng.randint(1, 3)
-        w = [rng.choice([1, -1]) for _ in range(m)]
-        rows = [[Fr(rng.randint(0, 2)) for _ in range(m)] for _ in range(n)]
-        mode = rng.random()
-        if mode < 0.5:
-            pop0 = build(w, rows, [0] * n)
-            emomod.assignCrowdingDist(pop0)
-            cds = [x.fitness.crowding_dist for x in pop0]
-        else:
-            cds = [rng.choice([0.0, 0.5, 1.0, float("inf")]) for _ in range(n)]
-        if rng.random() < 0.75:
-            k = 4 * rng.randint(0, n // 4)
-            do_dcd(w, rows, [0] * n, cds, k, inscope=True, ubits=rng.choice([1, 2, 4]))
-        else:
-            do_dcd(w, rows, [0] * n, cds, rng.randint(0, n + 2), inscope=False, ubits=1)
+        # lexicase: more objectives, more ties
+        for _ in range(n_lex):
+            n = rng.randint(1, 8)
+            m = rng.randint(1, 4)
+            w = [rng.choice([1, -1]) * rng.choice([1, 1, 2, Fr(1, 2)]) for _ in range(m)]
+            den = rng.choice([1, 2, 4])
+            hi = rng.choice([1, 2, 4])
+            rows = [[Fr(rng.randint(0, hi), den) for _ in range(m)] for _ in range(n)]
+            k = rng.randint(0, 4)
+            do_lex("plain", w, rows, [0] * n, k)
+            do_lex("eps", w, rows, [0] * n, k, eps=rng.choice([Fr(0), Fr(1, 4), Fr(1, 2), Fr(1), Fr(3)]))
+            do_lex("auto", w, rows, [0] * n, k)
+        do_lex("plain", [1], [], [], 1, inscope=False)
+        do_lex("plain", [1], [], [], 0, inscope=False)
+
+        # DCD
+        for _ in range(n_dcd):
+            n = rng.choice([0, 1, 2, 3, 4, 4, 5, 6, 7, 8, 8, 12])
+            m = rng.randint(1, 3)
+            w = [rng.choice([1, -1]) for _ in range(m)]
+            rows = [[Fr(rng.randint(0, 2)) for _ in range(m)] for _ in range(n)]
+            mode = rng.random()
+            if mode < 0.5:
+                pop0 = build(w, rows, [0] * n)
+                emomod.assignCrowdingDist(pop0)
+                cds = [x.fitness.crowding_dist for x in pop0]
+            else:
+                cds = [rng.choice([0.0, 0.5, 1.0, float("inf")]) for _ in range(n)]
+            if rng.random() < 0.75:
+                k = 4 * rng.randint(0, n // 4)
+                do_dcd(w, rows, [0] * n, cds, k, inscope=True, ubits=rng.choice([1, 2, 4]))
+            else:
+                do_dcd(w, rows, [0] * n, cds, rng.randint(0, n + 2), inscope=False, ubits=1)
+
+
+    random_part(run.scale(220, 4000), run.scale(200, 3000), run.scale(260, 4000), run.scale(150, 2500), run.scale(200, 3000))
+
+    def search(r):
+        """only runs when an obligation or the correspondence broke and the regular cases gave no failing input:
+        a larger oracle-only sweep for a concrete input on which the implementation violates the statement"""
+        searching[0] = True
+        try:
+            random_part(*[run.scale(4, 10) * x for x in (220, 200, 260, 150, 200)])
+        finally:
+            searching[0] = False
+    run.search_fn = search
 
     run.correspond("all", "C06", terms, cases)
